@@ -1345,6 +1345,29 @@ pub fn c12(rec: &mut Rec, rng: &mut Rng, thorough: bool) {
     unsafe {
         libc::close(0);
     }
+    // descriptor NUMBERS come back: the application drops a delivered request (closing its descriptors), and descriptors
+    // received later on the same connection get those numbers again — they are new descriptors and are delivered
+    for k in 0..(if thorough { 200 } else { 20 }) {
+        rec.case("descriptor-numbers-reused");
+        rec.nontrivial();
+        let mut d = ConnDriver::new(rec, 51200);
+        d.tokens.descending = false;
+        let rounds = 2 + k % 3;
+        for r in 0..rounds {
+            let nf = 1 + (k + r) % 3;
+            let before_next = d.tokens.next;
+            let req = format!("GET /reuse{} HTTP/1.1\r\n\r\n", r);
+            d.recv(rec, req.as_bytes(), nf);
+            let want: Vec<usize> = (before_next..d.tokens.next).collect();
+            let del = d.popall(rec);
+            if del.len() != 1 || del[0].files != want {
+                rec.oracle_fail("C12", &format!("round {}: descriptors {:?} arrived with the request (numbers freed by dropping earlier requests are in use again), delivered {:?}", r, want, del.iter().map(|x| x.files.clone()).collect::<Vec<_>>()), &d.log);
+            }
+            // the application is done with the request: its descriptors are closed and their numbers are free again
+            d.held.clear();
+        }
+        d.conn = None;
+    }
     for i in 0..n {
         rec.case("descriptors");
         let (stream, _plans) = pipeline(rng, 4, i % 5 == 0);
